@@ -17,6 +17,11 @@ from typing import Dict, List, Optional
 from .astq import FUNC_TYPES, ast_copy
 
 SYN = "__InlineReturn"
+PY_SPECIAL = {f"__{x}__" for x in """init new del repr str bytes format lt le eq ne gt ge hash bool getattr getattribute setattr delattr dir get set delete set_name
+init_subclass class_getitem call len length_hint getitem setitem delitem missing iter next reversed contains add sub mul matmul truediv floordiv mod divmod pow lshift rshift
+and xor or radd rsub rmul rmatmul rtruediv rfloordiv rmod rdivmod rpow rlshift rrshift rand rxor ror iadd isub imul imatmul itruediv ifloordiv imod ipow ilshift irshift iand ixor ior
+neg pos abs invert complex int float index round trunc floor ceil enter exit aenter aexit await aiter anext copy deepcopy reduce reduce_ex getstate setstate getnewargs sizeof fspath
+post_init validate getxpmtype xpm xpmtype""".split()}
 
 # pinned helpers that are transparent for the rules: the rules are written against the spliced form, so that inlining them by hand changes nothing
 ALWAYS_INLINE = {"core.objects:ConfigInformation.validate_and_seal"}
@@ -56,7 +61,7 @@ class Inliner:
             if f.module.is_test() or (key in self.pinned and key not in ALWAYS_INLINE) or f.parent is not None:
                 continue
             n = f.node
-            if n.name.startswith("__") and n.name.endswith("__"):
+            if n.name.startswith("__") and n.name.endswith("__") and n.name in PY_SPECIAL:
                 continue
             if n.args.vararg or n.args.kwarg:
                 continue
